@@ -25,13 +25,14 @@ package graph
 //@   less tags.Less
 //@   key t.t[$x].Name == t.t[$y].Name
 
-// Edges of one sort are distinguished by their end points (node identity).
+// Edges of one sort are distinguished by the Info of their end points (in a graph, as
+// opposed to a call tree, a node is identified by its Info).
 //@ order edgelist_less arith bv
 //@   recv el edgeList
 //@   elems int
 //@   wf 0 <= $x && $x < len(el) && el[$x] != nil && el[$x].Src != nil && el[$x].Dest != nil
 //@   less edgeList.Less
-//@   key el[$x].Src == el[$y].Src && el[$x].Dest == el[$y].Dest
+//@   key el[$x].Src.Info == el[$y].Src.Info && el[$x].Dest.Info == el[$y].Dest.Info
 
 // Nodes of one graph are distinguished by Info.
 //@ order nodes_flatname arith bv
